@@ -298,8 +298,8 @@ func runC16(c *fw.Case) {
 			if math.IsNaN(f) {
 				continue
 			}
-			if c16Nontrivial(f) {
-				nt++
+			if c16Nontrivial(f) && (hooks.Available || i%64 == 0) {
+				nt++ // without the hook only the values that travel through ToJSON are judged
 			}
 			okAll = c16Direct(c, st, f, i%5, i%8 == 0)
 			if i%64 == 0 {
